@@ -262,7 +262,78 @@ func ruleScope(c *Ctx) *RuleResult {
 		if okAll {
 			r.ok(fmt.Sprintf("(6) astcomp.%s pops the body's scope before jumping back", name))
 		}
+		// (7) what the loop itself declares in each iteration (the loop variables)
+		// lives in a scope entered after the loop label and left before the jump back:
+		// otherwise the variables are the same for every iteration
+		var labelEmit ssa.Instruction
+		forEachInstr(f, func(ins ssa.Instruction) {
+			call, ok := ins.(ssa.CallInstruction)
+			if !ok || labelEmit != nil {
+				return
+			}
+			if calleeNamed(call, "EmitLabelNoLine") || calleeNamed(call, "EmitLabel") {
+				for _, a := range call.Common().Args {
+					if a == lbl {
+						labelEmit = ins
+					}
+				}
+			}
+		})
+		if labelEmit == nil {
+			r.broken("%s: the loop label is never emitted (anchor moved?)", name)
+			continue
+		}
+		isDecl := func(call ssa.CallInstruction) bool {
+			if calleeNamed(call, "DeclareLocal") {
+				return true
+			}
+			if calleeNamed(call, "CompileStat") {
+				for _, a := range call.Common().Args {
+					if mi, ok := a.(*ssa.MakeInterface); ok {
+						if _, tn, ok := namedOf(mi.X.Type()); ok && tn == "LocalStat" {
+							return true
+						}
+					}
+				}
+			}
+			return false
+		}
+		pushes := callsWhere(f, func(c ssa.CallInstruction) bool { return calleeNamed(c, "PushContext") })
+		explicitPops := callsWhere(f, func(c ssa.CallInstruction) bool { return calleeNamed(c, "PopContext") })
+		nDecl := 0
+		for _, d := range callsWhere(f, isDecl) {
+			inLoop := false
+			for _, bj := range backJumps {
+				if instrDominates(labelEmit, d) && instrDominates(d, bj) {
+					inLoop = true
+				}
+			}
+			if !inLoop {
+				continue
+			}
+			nDecl++
+			pushed, popped := false, false
+			for _, ps := range pushes {
+				if instrDominates(labelEmit, ps) && instrDominates(ps, d) {
+					pushed = true
+				}
+			}
+			for _, pp := range explicitPops {
+				for _, bj := range backJumps {
+					if instrDominates(d, pp) && instrDominates(pp, bj) {
+						popped = true
+					}
+				}
+			}
+			if pushed && popped {
+				r.ok(fmt.Sprintf("(7) astcomp.%s declares its per-iteration locals in a scope entered inside the loop", name))
+			} else {
+				r.fail("loop-variables-not-per-iteration:"+name, p.InstrPos(d), fmt.Sprintf("astcomp.%s declares locals between the loop label and the jump back without entering a scope there (push inside the loop: %v, pop before the jump back: %v): the loop variables are the same registers and cells in every iteration, so closures created in different iterations share them (and see the value of the last iteration)", name, pushed, popped))
+			}
+		}
+		r.count("per_iteration_declarations", nDecl)
 	}
+	r.floor("per_iteration_declarations", 2)
 	return r
 }
 
